@@ -187,6 +187,56 @@ def _tag(node: ast.AST, module: str) -> None:
             x._jv_module = module  # type: ignore[attr-defined]
 
 
+def _abs_from(module: str, is_pkg: bool, node: ast.ImportFrom) -> str:
+    if node.level == 0:
+        m = node.module or ""
+        return m[len("joserfc."):] if m.startswith("joserfc.") else ("" if m == "joserfc" else "!" + m)
+    base = module.split(".") if module else []
+    if not is_pkg and base:
+        base = base[:-1]
+    if node.level > 1:
+        base = base[: len(base) - (node.level - 1)]
+    if node.module:
+        base = base + node.module.split(".")
+    return ".".join(base)
+
+
+def module_bindings(tree: ast.Module, module: str, is_pkg: bool) -> Dict[str, Tuple[str, ...]]:
+    """what each module-level name of a module denotes: ('ext', dotted) / ('pkg', module, name) / ('mod', module)"""
+    out: Dict[str, Tuple[str, ...]] = {}
+    for st in tree.body:
+        if isinstance(st, ast.Import):
+            for a in st.names:
+                nm = a.asname or a.name.split(".")[0]
+                out[nm] = ("ext", a.name if a.asname else a.name.split(".")[0])
+        elif isinstance(st, ast.ImportFrom):
+            tgt = _abs_from(module, is_pkg, st)
+            for a in st.names:
+                if tgt.startswith("!"):
+                    out[a.asname or a.name] = ("ext", tgt[1:] + "." + a.name)
+                else:
+                    out[a.asname or a.name] = ("pkg", tgt, a.name)
+        elif isinstance(st, (ast.FunctionDef, ast.AsyncFunctionDef, ast.ClassDef)):
+            out[st.name] = ("pkg", module, st.name)
+        elif isinstance(st, (ast.Assign, ast.AnnAssign)):
+            tg = st.targets if isinstance(st, ast.Assign) else [st.target]
+            for t_ in tg:
+                for x in ast.walk(t_):
+                    if isinstance(x, ast.Name):
+                        out[x.id] = ("pkg", module, x.id)
+    return out
+
+
+def _free_globals(fn: ast.FunctionDef) -> Set[str]:
+    params = {a.arg for a in fn.args.args + fn.args.kwonlyargs}
+    stores = {x.id for x in ast.walk(fn) if isinstance(x, ast.Name) and isinstance(x.ctx, (ast.Store, ast.Del))}
+    for x in ast.walk(fn):
+        if isinstance(x, ast.ExceptHandler) and x.name:
+            stores.add(x.name)
+    import builtins
+    return {x.id for b in fn.body for x in ast.walk(b) if isinstance(x, ast.Name) and isinstance(x.ctx, ast.Load)} - params - stores - set(dir(builtins))
+
+
 def package_helpers(parsed: List[Tuple[str, ast.Module]], ambiguous: Set[str]):
     """(module-level helpers by (module short name, function name), unique new methods by name) over the whole package"""
     ref = reference_functions()
@@ -212,13 +262,17 @@ def package_helpers(parsed: List[Tuple[str, ast.Module]], ambiguous: Set[str]):
 
 
 class Inliner:
-    def __init__(self, tree: ast.Module, module: str, ambiguous: Optional[Set[str]] = None, pkg_funcs=None, pkg_meths=None, is_package: bool = False):
+    def __init__(self, tree: ast.Module, module: str, ambiguous: Optional[Set[str]] = None, pkg_funcs=None, pkg_meths=None, is_package: bool = False,
+                 pkg_bindings: Optional[Dict[str, Dict[str, Tuple[str, ...]]]] = None):
         self.tree = tree
         self.module = module
         self.counter = 0
         ref = reference_functions()
         self.helpers: Dict[str, Tuple[ast.FunctionDef, List[ast.stmt]]] = {}
         self.keep: Set[str] = set()  # names some module of the package imports: never dropped
+        self.pkg_bindings = pkg_bindings or {}
+        self.mine = module_bindings(tree, module, is_package)
+        self.inject: Dict[str, Tuple[str, ...]] = {}
         self.foreign: Dict[int, str] = {}  # id(FunctionDef) -> module it lives in, for helpers of other modules
         for st in tree.body:
             if isinstance(st, ast.FunctionDef) and f"{module}:{st.name}" not in ref:
@@ -236,7 +290,7 @@ class Inliner:
                     tgt = ".".join(b_ + (st.module.split(".") if st.module else []))
                     for a in st.names:
                         k = (tgt, a.name)
-                        if k in pkg_funcs and (a.asname or a.name) not in self.helpers:
+                        if k in pkg_funcs and (a.asname or a.name) not in self.helpers and self._namespace_ok(pkg_funcs[k][0], tgt):
                             self.helpers[a.asname or a.name] = pkg_funcs[k]
                             self.foreign[id(pkg_funcs[k][0])] = tgt
         # new methods, callable as self.m(...) / cls.m(...) from methods of the same class when no class of this module overrides them
@@ -262,12 +316,28 @@ class Inliner:
                 self.unique_methods[mname] = (fn_, b_)
         if pkg_meths:
             for mname, (mod_, fn_, b_) in pkg_meths.items():
-                if mname not in self.unique_methods:
+                if mname not in self.unique_methods and (mod_ == module or self._namespace_ok(fn_, mod_)):
                     self.unique_methods[mname] = (fn_, b_)
                     if mod_ != module:
                         self.foreign[id(fn_)] = mod_
         self.inlined: List[str] = []
         self.removed: List[str] = []
+
+    def _namespace_ok(self, fn: ast.FunctionDef, src_module: str) -> bool:
+        """every global name the foreign helper's body uses denotes the same thing here, or is unbound here (then the import is injected)"""
+        src = self.pkg_bindings.get(src_module)
+        if src is None:
+            return False
+        for nm in _free_globals(fn):
+            theirs = src.get(nm)
+            if theirs is None:
+                return False  # not a builtin, not bound at module level there: something this does not model
+            ours = self.mine.get(nm)
+            if ours is None:
+                self.inject.setdefault(nm, theirs)
+            elif ours != theirs:
+                return False
+        return True
 
     def _callee(self, call: ast.Call) -> Optional[Tuple[ast.FunctionDef, List[ast.stmt], Optional[ast.expr]]]:
         """(function, structured body, receiver expression to bind to its first parameter or None)"""
@@ -515,6 +585,25 @@ class Inliner:
                     self.cls_stack.pop()
 
         visit(self.tree.body, None)
+        if self.inject and self.inlined:
+            imports: List[ast.stmt] = []
+            for nm, b in sorted(self.inject.items()):
+                if b[0] == "ext":
+                    dotted = b[1]
+                    if "." in dotted:
+                        modp, _, last = dotted.rpartition(".")
+                        imports.append(ast.ImportFrom(module=modp, names=[ast.alias(name=last, asname=nm if nm != last else None)], level=0))
+                    else:
+                        imports.append(ast.Import(names=[ast.alias(name=dotted, asname=nm if nm != dotted else None)]))
+                elif b[0] == "pkg":
+                    imports.append(ast.ImportFrom(module="joserfc" + ("." + b[1] if b[1] else ""), names=[ast.alias(name=b[2], asname=nm if nm != b[2] else None)], level=0))
+            at = 0
+            for i, st in enumerate(self.tree.body):
+                if isinstance(st, ast.ImportFrom) and st.module == "__future__" or (isinstance(st, ast.Expr) and isinstance(st.value, ast.Constant) and i == 0):
+                    at = i + 1
+            for im in imports:
+                ast.copy_location(im, self.tree.body[0])
+            self.tree.body[at:at] = imports
         # a private helper whose every call was replaced is dead code now: drop it, so that no rule judges a function nobody calls
         # (Program checks that no other module imports it)
         for name, (fn, _b) in list(self.helpers.items()):
@@ -626,8 +715,8 @@ def _replace_node(st: ast.stmt, fld: str, old: ast.AST, new: ast.AST) -> None:
 
 
 def inline_new_helpers(tree: ast.Module, module: str, ambiguous: Optional[Set[str]] = None, pkg_funcs=None, pkg_meths=None,
-                       is_package: bool = False, keep: Optional[Set[str]] = None) -> Tuple[ast.Module, List[str]]:
-    inl = Inliner(tree, module, ambiguous, pkg_funcs, pkg_meths, is_package)
+                       is_package: bool = False, keep: Optional[Set[str]] = None, pkg_bindings=None) -> Tuple[ast.Module, List[str]]:
+    inl = Inliner(tree, module, ambiguous, pkg_funcs, pkg_meths, is_package, pkg_bindings)
     inl.keep = set(keep or ())
     t = inl.run()
     return t, sorted(set(inl.inlined)) + ["-" + n for n in inl.removed]
